@@ -111,9 +111,11 @@ func timeslots(shard, n int, mode string) tsResult {
 				check(u, &prev)
 			}
 		} else {
-			check(base, &prev)
-			check(base+1, &prev)
-			check(base+299, &prev)
+			for _, u := range []int64{base, base + 1, base + 299} {
+				if u-g <= (1<<32)-1 { // the domain ends at genesis+2^32-1 seconds
+					check(u, &prev)
+				}
+			}
 		}
 		// the inverse direction for every timeslot
 		r.Evaluations++
